@@ -215,6 +215,9 @@ impl<'a, const BITS: usize, const LIMBS: usize> FromSql<'a> for Uint<BITS, LIMBS
                 }
                 let len: usize = i32::from_be_bytes(raw[..4].try_into()?).try_into()?;
                 let raw = &raw[4..];
+                if raw.len() != (len + 7) / 8 {
+                    return Err(Box::new(FromSqlError::ParseError(ty.clone())));
+                }
 
                 // Shift padding to the other end
                 let padding = 8 - rem_up(len, 8);
@@ -235,7 +238,7 @@ impl<'a, const BITS: usize, const LIMBS: usize> FromSql<'a> for Uint<BITS, LIMBS
             // Hex strings
             Type::JSON | Type::JSONB => {
                 let raw = if *ty == Type::JSONB {
-                    if raw[0] == 1 {
+                    if raw.first() == Some(&1) {
                         &raw[1..]
                     } else {
                         // Unsupported version
@@ -245,7 +248,7 @@ impl<'a, const BITS: usize, const LIMBS: usize> FromSql<'a> for Uint<BITS, LIMBS
                     raw
                 };
                 let str = from_utf8(raw)?;
-                let str = if str.starts_with('"') && str.ends_with('"') {
+                let str = if str.len() >= 2 && str.starts_with('"') && str.ends_with('"') {
                     // Stringified number
                     &str[1..str.len() - 1]
                 } else {
@@ -270,7 +273,7 @@ impl<'a, const BITS: usize, const LIMBS: usize> FromSql<'a> for Uint<BITS, LIMBS
                     || exponent < 0
                     || sign != 0x0000
                     || dscale != 0
-                    || digits > exponent + 1
+                    || i32::from(digits) > i32::from(exponent) + 1
                     || raw.len() != digits as usize * 2
                 {
                     return Err(Box::new(FromSqlError::ParseError(ty.clone())));
@@ -290,7 +293,9 @@ impl<'a, const BITS: usize, const LIMBS: usize> FromSql<'a> for Uint<BITS, LIMBS
                 });
                 #[allow(clippy::cast_sign_loss)]
                 // Expression can not be negative due to checks above
-                let iter = iter.chain(iter::repeat(0).take((exponent + 1 - digits) as usize));
+                let iter = iter.chain(
+                    iter::repeat(0).take((i32::from(exponent) + 1 - i32::from(digits)) as usize),
+                );
 
                 let value = Self::from_base_be(10000, iter)?;
                 if error {
